@@ -278,3 +278,79 @@ package rockredis
 //@   ensures v1 < v2 <==> lexLess(result0, result1)
 //@ lemma lemmaIntDescCodecOrder(v1 int64, v2 int64) ([]byte, []byte)
 //@   ensures v1 > v2 <==> lexLess(result0, result1)
+
+//@ property C10
+
+// ---- value header of the wait_compact expiry policy: [Ver][ExpireAt be32][ValueVersion be64][user data] ----
+
+//@ func newHeaderMetaV1() *headerMetaValue
+//@   ensures result != nil && fresh(result) && result.Ver == 1 && result.ExpireAt == 0 && result.ValueVersion == 0 && result.UserData == nil
+
+//@ func (h *headerMetaValue) hdlen() int
+//@   requires h != nil
+//@   ensures h.Ver == 1 ==> result == 13
+//@   ensures h.Ver != 1 ==> result == 0
+
+// a key is expired exactly from the second ExpireAt on, judged by the log timestamp only
+//@ func (h *headerMetaValue) isExpired(ts int64) bool
+//@   requires h != nil
+//@   ensures result <==> (h.Ver == 1 && h.ExpireAt != 0 && ts != 0 && ts / 1000000000 >= h.ExpireAt)
+
+// before expiry TTL is the remaining whole seconds (> 0); at and after expiry, or without expiry, it is -1
+//@ func (h *headerMetaValue) ttl(ts int64) int64
+//@   requires h != nil
+//@   ensures h.ExpireAt == 0 ==> result == -1
+//@   ensures h.ExpireAt != 0 && h.ExpireAt - ts / 1000000000 > 0 ==> result == h.ExpireAt - ts / 1000000000
+//@   ensures h.ExpireAt != 0 && h.ExpireAt - ts / 1000000000 <= 0 ==> result == -1
+
+// ttl and isExpired agree: a positive ttl is reported iff an expiry is set and the key is not expired
+//@ lemma lemmaTTLConsistent(h *headerMetaValue, ts int64) (int64, bool)
+//@   requires h != nil && h.Ver == 1 && ts != 0
+//@   ensures result0 > 0 <==> (h.ExpireAt != 0 && !result1)
+//@   ensures result0 > 0 || result0 == -1
+
+//@ spec be32(b []byte, p int) int = int(b[p])*16777216 + int(b[p+1])*65536 + int(b[p+2])*256 + int(b[p+3])
+
+//@ func (h *headerMetaValue) encodeTo(old []byte) (int, []byte)
+//@   requires h != nil && (h.Ver == 0 || h.Ver == 1)
+//@   ensures h.Ver == 0 ==> result0 == 0 && sameSlice(result1, old)
+//@   ensures h.Ver == 1 ==> result0 == 13 && len(result1) >= 13 && result1[0] == 1 && be32(result1, 1) == h.ExpireAt && be64(result1, 5) == uint64(h.ValueVersion)
+//@   ensures h.Ver == 1 && len(old) >= 13 ==> sameSlice(result1, old)
+//@   ensures h.Ver == 1 && len(old) < 13 ==> fresh(result1) && len(result1) == 13
+//@   modifies old[0:13]
+
+//@ func (h *headerMetaValue) decode(b []byte) (int, error)
+//@   requires h != nil
+//@   ensures result1 == nil <==> (len(b) >= 13 && b[0] == 1)
+//@   ensures result1 == nil ==> result0 == 13 && h.Ver == 1 && h.ExpireAt == be32(b, 1) && uint64(h.ValueVersion) == be64(b, 5) && sameSlice(h.UserData, b[13:len(b)])
+//@   modifies h.Ver, h.ExpireAt, h.ValueVersion, h.UserData
+
+//@ func (h *headerMetaValue) encodeWithDataTo(old []byte) []byte
+//@   requires h != nil && h.Ver == 1 && len(old) >= 13 + len(h.UserData) && disjoint(old, h.UserData)
+//@   ensures sameSlice(result, old) && result[0] == 1 && be32(result, 1) == h.ExpireAt && be64(result, 5) == uint64(h.ValueVersion) && eqAt(result, 13, h.UserData)
+//@   modifies old[0:13+len(h.UserData)]
+
+//@ func (h *headerMetaValue) encodeWithData() []byte
+//@   requires h != nil && h.Ver == 1
+//@   ensures len(result) == 13 + len(h.UserData) && result[0] == 1 && be32(result, 1) == h.ExpireAt && be64(result, 5) == uint64(h.ValueVersion) && eqAt(result, 13, h.UserData)
+//@   ensures fresh(result)
+
+//@ lemma lemmaHeaderRoundTrip(h *headerMetaValue, h2 *headerMetaValue) (int, error)
+//@   requires h != nil && h2 != nil && h != h2 && h.Ver == 1
+//@   ensures result1 == nil && result0 == 13 && h2.Ver == 1 && h2.ExpireAt == h.ExpireAt && h2.ValueVersion == h.ValueVersion && bytesEq(h2.UserData, h.UserData)
+//@   modifies h2.Ver, h2.ExpireAt, h2.ValueVersion, h2.UserData
+
+// a new generation: no expiry, no data, version = the log timestamp of the re-creating write
+//@ func (exp *compactExpiration) renewOnExpired(ts int64, dataType byte, key []byte, oldh *headerMetaValue)
+//@   requires exp != nil
+//@   requires dataType == KVType || dataType == HashType || dataType == SetType || dataType == BitmapType || dataType == ListType || dataType == ZSetType
+//@   ensures oldh != nil ==> oldh.ExpireAt == 0 && oldh.UserData == nil && oldh.ValueVersion == ts && oldh.Ver == old(oldh.Ver)
+//@   modifies oldh.ExpireAt, oldh.UserData, oldh.ValueVersion
+
+// the stored expiry is the requested absolute second, or the request is refused
+//@ func (exp *compactExpiration) rawExpireAt(dataType byte, key []byte, rawValue []byte, when int64, wb engine.WriteBatch) ([]byte, error)
+//@   requires exp != nil
+//@   requires dataType == KVType || dataType == HashType || dataType == SetType || dataType == BitmapType || dataType == ListType || dataType == ZSetType
+//@   ensures result1 == nil ==> len(result0) >= 13 && result0[0] == 1 && be32(result0, 1) == when
+//@   ensures result1 == nil ==> sameSlice(result0, rawValue)
+//@   modifies rawValue[0:13]
